@@ -22,6 +22,7 @@ func TestMain(m *testing.M) {
 	ev.Main(m, prop, []ev.Job{
 		{Test: "TestCrafted", Quick: 16, Thorough: 16},
 		{Test: "TestFlipSweep", Quick: 8, Thorough: 16},
+		{Test: "TestColdVerify", Quick: 2, Thorough: 2},
 	})
 }
 
@@ -117,6 +118,7 @@ func init() {
 	}
 	ev.Register("TestCrafted", f)
 	ev.Register("TestFlipSweep", f)
+	ev.Register("TestColdVerify", f)
 }
 
 // ---- helpers on the signature layout: c~ (32) | z (7 x 640) | hint positions (75) | counts (8) ----
@@ -200,12 +202,12 @@ func pool(r *ev.Recorder, n int) []keyEnt {
 	return ks
 }
 
-var craftKinds = []string{"valid", "valid-ref-signed", "dishonest-z", "dishonest-z", "dishonest-r0", "hint-swap", "hint-duplicate", "hint-padding", "hint-padding-pair", "hint-count-over", "hint-count-decreasing", "hint-count-into-padding", "hint-count-chain",
+var craftKinds = []string{"valid", "valid-ref-signed", "dishonest-z", "dishonest-z", "dishonest-r0", "dishonest-challenge-byte", "dishonest-challenge-byte", "hint-after-255", "hint-swap", "hint-duplicate", "hint-padding", "hint-padding-pair", "hint-count-over", "hint-count-decreasing", "hint-count-into-padding", "hint-count-chain",
 	"other-message", "other-key", "z-set-extreme", "garbage", "garbage-keep-hints", "challenge-last-byte"}
 
 func TestCrafted(t *testing.T) {
 	r := ev.New(t, prop, "TestCrafted")
-	r.Rule("rapid draws a key (pool of 4), a message and ONE crafted class: signatures from a DISHONEST reference signer holding the secret key that skips exactly one signing-side check (z-norm: everything the verifier recomputes matches, only the norm check can stop it; r0; hint count), hint-encoding surgery that preserves the decoded hint set (swap, duplicate, non-zero padding, counts over 75 / decreasing / reaching into the padding), other message / key, a z coefficient forced to +-(gamma1-beta-1), +-(gamma1-beta), -gamma1+1, gamma1, garbage; oracle Verify_lib == Verify_spec, a-priori reject, Open consistent; non-trivial = passes all verifier-side conditions but one, or differs from a valid signature by one edit; distinct by (class, key, message, position)")
+	r.Rule("rapid draws a key (pool of 4), a message and ONE crafted class: signatures from a DISHONEST reference signer holding the secret key that skips exactly one signing-side check (z-norm: everything the verifier recomputes matches, only the norm check can stop it; r0; hint count) or transmits a challenge differing in one byte from the honest one while using it consistently (only the final challenge comparison can stop it - every byte position is drawn), hint-encoding surgery that preserves the decoded hint set (swap, duplicate, non-zero padding, counts over 75 / decreasing / reaching into the padding), other message / key, a z coefficient forced to +-(gamma1-beta-1), +-(gamma1-beta), -gamma1+1, gamma1, garbage; oracle Verify_lib == Verify_spec, a-priori reject, Open consistent; non-trivial = passes all verifier-side conditions but one, or differs from a valid signature by one edit; distinct by (class, key, message, position)")
 	ks := pool(r, 4)
 	checks := r.PerShard(r.Pick(3200, 80000))
 	r.Rapid(t, "craft", checks, func(rt *rapid.T) {
@@ -245,6 +247,41 @@ func TestCrafted(t *testing.T) {
 			if a.ZNorm == dilref.Gamma1-dilref.Beta {
 				r.Count("dishonest_z_exactly_at_bound", 1)
 			}
+		case "dishonest-challenge-byte":
+			pos, x := rapid.IntRange(0, 31).Draw(rt, "byte"), rapid.SampledFrom([]int{1, 2, 0x10, 0x80, 0xff}).Draw(rt, "xor")
+			sig, _ := k.ref.Sign(msg, fmt.Sprintf("ctweak=%d:%d", pos, x))
+			if sig == nil {
+				c.Sig, c.Expect, c.Class = honest(), "accept", "valid"
+				break
+			}
+			c.Sig = sig
+			detail = fmt.Sprintf("signer transmits a challenge that differs from H(mu||w1) in byte %d (xor %#02x) and uses it consistently: z, norms and hints are all in order, w1 is reconstructed exactly", pos, x)
+		case "hint-after-255":
+			// a polynomial whose hint run ends at position 255 gets MORE position bytes after it (counts bumped):
+			// same decoded set if they repeat earlier positions, never canonical
+			s := honest()
+			rows, ok := hintRows(s)
+			r.Health(ok, "honest signature has malformed hints")
+			total := 0
+			cand := -1
+			for i, row := range rows {
+				total += len(row)
+				if len(row) > 0 && row[len(row)-1] == 255 {
+					cand = i
+				}
+			}
+			if cand < 0 || total >= 75 {
+				r.Count("hint_after_255_not_applicable", 1)
+				c.Sig, c.Expect, c.Class = s, "accept", "valid"
+				break
+			}
+			extra := byte(rapid.SampledFrom([]int{255, 0, 1, 128, 254}).Draw(rt, "extra"))
+			if rapid.Bool().Draw(rt, "repeatEarlier") {
+				extra = rows[cand][rapid.IntRange(0, len(rows[cand])-1).Draw(rt, "which")]
+			}
+			rows[cand] = append(rows[cand], extra)
+			c.Sig = putRows(s, rows)
+			detail = fmt.Sprintf("row %d ends at position 255 and is followed by one more position byte (%d)", cand, extra)
 		case "hint-swap", "hint-duplicate", "hint-padding", "hint-padding-pair", "hint-count-over", "hint-count-decreasing", "hint-count-into-padding":
 			s := honest()
 			rows, ok := hintRows(s)
@@ -380,6 +417,24 @@ func TestCrafted(t *testing.T) {
 		r.Sample(map[string]any{"class": c.Class, "detail": c.Detail, "expect": c.Expect})
 		report(rt, r, c)
 	})
+}
+
+// TestColdVerify: a fresh process whose first library call is a verification (Verify in one shard, Open in the
+// other) of a triple produced entirely by the reference model: nothing has generated a key or signed before.
+func TestColdVerify(t *testing.T) {
+	r := ev.New(t, prop, "TestColdVerify")
+	r.Rule("fresh process: the first library call is dilithium.Verify (shard 0) / Open (shard 1) on a reference-made triple, then on its one-bit-flipped variants; non-trivial = the first call of the process and the flips, distinct by shard and bit")
+	k := pu.DilRef(pu.DetBytes(r.Seed()*13+uint64(r.Shard()), 48))
+	msg := pu.DetBytes(r.Seed()+5, 40+r.Shard())
+	sig, _ := k.Sign(msg, "")
+	report(t, r, &triple{Class: "cold-valid", Detail: "first library call of the process", Expect: "accept", Msg: msg, Sig: sig, PK: k.PK, UseRef: true})
+	r.NonTrivialEnum(1)
+	for i := 0; i < 64; i++ {
+		bit := (i*577 + int(r.Seed())) % (len(sig) * 8)
+		report(t, r, &triple{Class: "cold-flip-sig", Detail: fmt.Sprintf("sig bit %d", bit), Expect: "reject", Msg: msg, Sig: flip(sig, bit), PK: k.PK})
+		r.NonTrivialEnum(1)
+	}
+	r.Sample(map[string]any{"first_call": []string{"Verify", "Open"}[r.Shard()%2], "msg_len": len(msg)})
 }
 
 func TestFlipSweep(t *testing.T) {
